@@ -253,6 +253,15 @@ func And(a, b bool) bool     { return a && b }
 func Or(a, b bool) bool      { return a || b }
 func Implies(a, b bool) bool { return !a || b }
 
+func IsLowerASCII(s string) bool {
+	for i := 0; i < len(s); i++ {
+		if s[i] >= 'A' && s[i] <= 'Z' || s[i] >= 0x80 {
+			return false
+		}
+	}
+	return true
+}
+
 func Assume(b bool) {
 	if !b {
 		panic(assumeFailed{"assumption does not hold on the replayed values"})
@@ -396,8 +405,23 @@ func OpenStore(name string) {
 	}
 }
 func SetSliceBound(n int)                  {}
+func AssumeNoKeysWithPrefix(store, prefix string) {}
 func SetSliceBoundFor(field string, n int) {}
 func RandChoiceMode(on bool)               {}
+func WF(typ string, clauses ...string)         {}
+
+var moduleNames = []string{"rns", "storage", "jklmint", "oracle", "notifications", "filetree", "fee_collector", "distribution", "bonded_tokens_pool", "not_bonded_tokens_pool", "gov", "mint", "transfer", "wasm"}
+
+func IsModuleAddr(addr sdk.AccAddress) bool {
+	for _, m := range moduleNames {
+		if string(authtypes.NewModuleAddress(m)) == string(addr) {
+			return true
+		}
+	}
+	return false
+}
+func WFKey(store, typ string, parts ...string) {}
+func WFAddr(typ string, fields ...string)      {}
 func ModuleAddr(name string) sdk.AccAddress { return authtypes.NewModuleAddress(name) }
 func Blocked(addr sdk.AccAddress) bool      { return w.blocked[string(addr)] }
 func StoreWrites() int                      { return 0 }
